@@ -110,7 +110,8 @@ func (in *InExpr) Eval(input []reflect.Value, isVariadic bool) (bool, error) {
 outer:
 	for _, one := range in.expressions {
 		if len(input) != len(one) {
-			return false, nil
+			// 长度不一致, 继续尝试下一个候选参数列表
+			continue
 		}
 		for i, param := range one {
 			v, err := param.Eval([]reflect.Value{input[i]}, isVariadic)
